@@ -66,7 +66,7 @@ def run_in_child(scenario, wall_s=None):
     """Fork, execute, return the result dict. Never raises for anything the code under
     test does; a child that had to be killed yields {"killed": True}."""
     wall_s = wall_s or WALL_S
-    wall_cap = WALL_CAP
+    wall_cap = WALL_CAP if not scenario.get("tick_mult") else 150.0
     r, w = os.pipe()
     sys.stdout.flush()
     sys.stderr.flush()
